@@ -76,8 +76,10 @@ def subgraphs (sm : SM) : List (List Nat) := subgraphsAux sm (sm.topo.length + 1
 def slice (l : List Nat) (start len : Nat) : List Nat := (l.drop start).take len
 
 /-- step 1 of `try_merge`: can `v` reach `u` through predecessor groups inside the window
-    (other than by a direct `u → v` edge)?  `true` = cycle found. -/
-def cycleCheck (sm : SM) (u v wlo whi : Nat) : Nat → List Nat → List Nat → Bool
+    (other than by a direct `u → v` edge)?  `true` = cycle found.  Reads `subgraph_preds`, `sg_idx` and the
+    union-find only. -/
+def cycleCheckF (preds : List (Nat × List Nat)) (idx rep : List (Nat × Nat)) (u v wlo whi : Nat) :
+    Nat → List Nat → List Nat → Bool
   | 0, _, _ => false
   | fuel + 1, stack, visited =>
     match stack.getLast? with
@@ -85,15 +87,18 @@ def cycleCheck (sm : SM) (u v wlo whi : Nat) : Nat → List Nat → List Nat →
     | some x =>
       let stack := stack.dropLast
       -- the `for &p in subgraph_preds[x]` loop: (found, stack, visited)
-      let r := ((aget sm.preds x).getD []).foldl (fun (acc : Bool × List Nat × List Nat) p =>
+      let r := ((aget preds x).getD []).foldl (fun (acc : Bool × List Nat × List Nat) p =>
         if acc.1 then acc else
-        let rp := sm.find p
+        let rp := findIn rep p
         if rp == u then (if x == v then acc else (true, acc.2.1, acc.2.2))
         else
-          let ip := (aget sm.idx rp).getD 0
+          let ip := (aget idx rp).getD 0
           if wlo ≤ ip && ip < whi && !acc.2.2.contains rp then (false, acc.2.1 ++ [rp], acc.2.2 ++ [rp])
           else acc) (false, stack, visited)
-      if r.1 then true else cycleCheck sm u v wlo whi fuel r.2.1 r.2.2
+      if r.1 then true else cycleCheckF preds idx rep u v wlo whi fuel r.2.1 r.2.2
+
+def cycleCheck (sm : SM) (u v wlo whi fuel : Nat) (stack visited : List Nat) : Bool :=
+  cycleCheckF sm.preds sm.idx sm.rep u v wlo whi fuel stack visited
 
 /-- the enemy remapping loop of step 2; `ws` is `enemies.remove(v)` in the order the `HashSet`
     happens to iterate -/
@@ -103,42 +108,64 @@ def remapEnemies (en : List (Nat × List Nat)) (u v : Nat) (ws : List Nat) : Lis
     let we := ((aget en w).getD []).filter (· != v)
     aset en w (setInsert we u)) en
 
-/-- steps 2 and 3 of `try_merge` for representatives `u` (earlier in the order) and `v` -/
-def mergeCore (perm : List Nat → List Nat) (sm : SM) (u v : Nat) : MergeResult :=
-  let uIdx := (aget sm.idx u).getD 0
-  let uLen := (aget sm.len u).getD 0
-  let vIdx := (aget sm.idx v).getD 0
-  let vLen := (aget sm.len v).getD 0
-  let uNodes := slice sm.topo uIdx uLen
-  let vNodes := slice sm.topo vIdx vLen
+/-- everything `try_merge` computes in steps 2 and 3 that does not involve the enemy sets -/
+structure MergeRest where
+  preds : List (Nat × List Nat)
+  topo : List Nat
+  idx : List (Nat × Nat)
+  len : List (Nat × Nat)
+  rep : List (Nat × Nat)
+
+/-- steps 2 and 3 of `try_merge` for representatives `u` (earlier in the order) and `v`, without the enemy
+    remapping; `none` = the `expect("bug: cycle check passed but re-toposort found cycle")` fires -/
+def mergeRest (preds0 : List (Nat × List Nat)) (topo0 : List Nat) (idx0 len0 : List (Nat × Nat))
+    (rep0 : List (Nat × Nat)) (u v : Nat) : Option MergeRest :=
+  let uIdx := (aget idx0 u).getD 0
+  let uLen := (aget len0 u).getD 0
+  let vIdx := (aget idx0 v).getD 0
+  let vLen := (aget len0 v).getD 0
+  let uNodes := slice topo0 uIdx uLen
+  let vNodes := slice topo0 vIdx vLen
   let wlo := uIdx
   let whi := vIdx + vLen
   -- 2. union + predecessor lists
-  let rep := (v, u) :: sm.rep
+  let rep := (v, u) :: rep0
   let find' := findIn rep
-  let vPreds := (aget sm.preds v).getD []
-  let uPreds := (aget sm.preds u).getD [] ++ vPreds
+  let vPreds := (aget preds0 v).getD []
+  let uPreds := (aget preds0 u).getD [] ++ vPreds
   let uPreds := sortDedup ((uPreds.map find').filter (· != u))
-  let preds := aset (aerase sm.preds v) u uPreds
-  let idx := aerase sm.idx v
-  let len := aset (aerase sm.len v) u (uLen + vLen)
-  let vEnemies := perm ((aget sm.enemies v).getD [])
-  let enemies := remapEnemies (aerase sm.enemies v) u v vEnemies
+  let preds := aset (aerase preds0 v) u uPreds
+  let idx := aerase idx0 v
+  let len := aset (aerase len0 v) u (uLen + vLen)
   -- 3. re-sort the groups in the window
-  let window := slice sm.topo wlo (whi - wlo)
+  let window := slice topo0 wlo (whi - wlo)
   let reps := sortDedup (window.map find')
   let inWin := fun p => let ip := (aget idx p).getD 0; wlo ≤ ip && ip < whi
   match topoSort reps (fun k => (((aget preds k).getD []).map find').filter inWin) with
-  | .error _ => .panic "cycle-check-passed-but-re-toposort-found-cycle"
+  | .error _ => none
   | .ok sorted =>
     let buf := sorted.flatMap fun grp =>
       if grp == u then uNodes ++ vNodes
-      else slice sm.topo ((aget idx grp).getD 0) ((aget len grp).getD 0)
-    let topo := sm.topo.take wlo ++ buf ++ sm.topo.drop whi
+      else slice topo0 ((aget idx grp).getD 0) ((aget len grp).getD 0)
+    let topo := topo0.take wlo ++ buf ++ topo0.drop whi
     let idx := (sorted.foldl (fun (acc : List (Nat × Nat) × Nat) grp =>
       (aset acc.1 grp acc.2, acc.2 + (aget len grp).getD 0)) (idx, wlo)).1
-    .done { preds := preds, topo := topo, idx := idx, len := len, rep := rep, enemies := enemies } true
+    some { preds := preds, topo := topo, idx := idx, len := len, rep := rep }
 
+/-- steps 2 and 3 of `try_merge`; the enemy set of `v` is iterated in the order `perm` gives it -/
+def mergeCore (perm : List Nat → List Nat) (sm : SM) (u v : Nat) : MergeResult :=
+  match mergeRest sm.preds sm.topo sm.idx sm.len sm.rep u v with
+  | none => .panic "cycle-check-passed-but-re-toposort-found-cycle"
+  | some x =>
+    .done { preds := x.preds, topo := x.topo, idx := x.idx, len := x.len, rep := x.rep,
+            enemies := remapEnemies (aerase sm.enemies v) u v (perm ((aget sm.enemies v).getD [])) } true
+
+/-- `try_merge` once `u` (earlier in the order) and `v` are fixed: the window cycle check, then the merge -/
+def tryMergeTail (perm : List Nat → List Nat) (sm : SM) (u v : Nat) : MergeResult :=
+  let wlo := (aget sm.idx u).getD 0
+  let whi := (aget sm.idx v).getD 0 + (aget sm.len v).getD 0
+  if cycleCheck sm u v wlo whi (sm.topo.length + 2) [v] [v] then .done sm false else
+  mergeCore perm sm u v
 
 /-- `try_merge(u, v)`; `perm` reorders the iterated enemy set (identity in the driver) -/
 def tryMergeP (perm : List Nat → List Nat) (sm : SM) (u0 v0 : Nat) : MergeResult :=
@@ -147,13 +174,8 @@ def tryMergeP (perm : List Nat → List Nat) (sm : SM) (u0 v0 : Nat) : MergeResu
   if a == b then .done sm true else
   if ((aget sm.enemies a).getD []).contains b then .done sm false else
   -- ensure `u` is before `v` in the order
-  let lt := decide ((aget sm.idx a).getD 0 < (aget sm.idx b).getD 0)
-  let u := if lt then a else b
-  let v := if lt then b else a
-  let wlo := (aget sm.idx u).getD 0
-  let whi := (aget sm.idx v).getD 0 + (aget sm.len v).getD 0
-  if cycleCheck sm u v wlo whi (sm.topo.length + 2) [v] [v] then .done sm false else
-  mergeCore perm sm u v
+  if (aget sm.idx a).getD 0 < (aget sm.idx b).getD 0 then tryMergeTail perm sm a b
+  else tryMergeTail perm sm b a
 
 def tryMerge (sm : SM) (u v : Nat) : MergeResult := tryMergeP id sm u v
 
